@@ -248,6 +248,10 @@ def hv_resumable(binary, args, runs, timeout=900):
         restarts += 1
         if start >= runs:
             return {"runs": runs, "restarts": restarts}
+        # a driver that has been restarted a hundred times and crashed in (nearly) every scenario so far has shown what
+        # there is to see; the scenarios executed are validated, the rest is skipped
+        if restarts >= 100 and restarts * 10 >= start * 9:
+            return {"runs": start, "restarts": restarts, "cut_short": True}
 
 
 def read_ndjson(path):
